@@ -257,6 +257,9 @@ class RoutingMonitor:
                 return
             self.v(c, 'entry-count', f'C10|entry-rows={min(len(fr["rows"]), 4)}-orders={min(len(new), 4)}', {'rows': fr['rows']})
             return
+        if fr['ref'] != fr['cur']:
+            self.v(c, 'stale-reference', 'C10|entry-routed-against-a-price-that-is-not-the-current-price',
+                   {'reference_used': fr['ref'], 'current_price': fr['cur'], 'rows': fr['rows']})
         for (q, p), r in zip(fr['rows'], new):
             want = route_type(side, p, fr['ref'], False)
             c.count('c10_entry_' + r.type.lower())
@@ -282,6 +285,18 @@ class RoutingMonitor:
     # ---- exits
     def reduce_begin(self, c, broker, qty, price, current_price):
         reg = c.scratch['registry']
+        # "type depends only on p relative to the CURRENT price": the reference the framework routes against must be
+        # the price of this moment (the fill price inside a fill hook), read here from the candle store through the
+        # position - not a value the strategy object remembered from an earlier moment
+        try:
+            now = broker.position.current_price
+        except Exception:
+            now = None
+        if now is not None and not reg.in_liq:
+            c.count('c10_reference_price_checks')
+            if float(current_price) != float(now):
+                self.v(c, 'stale-reference', f"C10|exit-routed-against-a-price-that-is-not-the-current-price|in-fill={int(reg.in_match is not None)}",
+                       {'reference_used': float(current_price), 'current_price': float(now), 'request': [float(qty), float(price)]})
         self.reduce_frames.append({'n0': len(reg.recs), 'pos_type': broker.position.type, 'sym': broker.symbol})
 
     def reduce_end(self, c, broker, qty, price, current_price, order):
